@@ -112,5 +112,9 @@ def run(check, ctx):
     from .c09_extra import run_order, AEAD
     for modname, cls, macs, sink in AEAD:
         run_order(check, repo, modname, cls, macs, sink)
-    check.undecided.append("ciphertext/tag equality with the standards for all inputs (block primitives, "
-                           "chaining, counter arithmetic in C); inversion")
+    # the native mode loops equal SP 800-38A for all keys and data (cipher uninterpreted, data symbolic)
+    from . import c_modes
+    c_modes.mode_tables(check, ctx, ("ctr", "cfb", "ofb", "cbc", "ecb", "cbc-partial", "ecb-partial"))
+    check.floor("K-sym", 7)
+    check.undecided.append("the block primitives themselves (AES/DES/... round functions and tables), GHASH/OCB/Poly1305 "
+                           "arithmetic in C; mode geometries outside the enumerated table")
